@@ -255,4 +255,59 @@ def twistOk (p : Nat) (c : CurveParam) (t : TwistParam) : Bool :=
   3 * f2 * f2 == 4 * (p : Int) * p - t2 * t2 &&
   (tp == t2 || tp == -t2 || 2 * tp == t2 + 3 * f2 || 2 * tp == -(t2 + 3 * f2) || 2 * tp == t2 - 3 * f2 || 2 * tp == -(t2 - 3 * f2))
 
+/-! ### twisted Edwards parameter sets (src/ed/relic_ed_param.c) -/
+
+structure EdParam where
+  name : String
+  id : Nat
+  field : String
+  a : Nat
+  d : Nat
+  gx : Nat
+  gy : Nat
+  r : Nat
+  h : Nat
+deriving Repr
+
+/-- projective point (X : Y : Z) of a·x² + y² = 1 + d·x²·y² -/
+structure EPt where
+  x : Nat
+  y : Nat
+  z : Nat
+
+/-- unified projective addition (Bernstein–Birkner–Joye–Lange–Peters 2008), no inversion; complete for a a square and d a non-square -/
+def eAdd (p a d : Nat) (P Q : EPt) : EPt :=
+  let A := P.z * Q.z % p
+  let B := A * A % p
+  let C := P.x * Q.x % p
+  let D := P.y * Q.y % p
+  let E := d * C % p * D % p
+  let F := kSub p B E
+  let G := (B + E) % p
+  let X3 := A * F % p * kSub p (kSub p ((P.x + P.y) % p * ((Q.x + Q.y) % p) % p) C) D % p
+  let Y3 := A * G % p * kSub p D (a * C % p) % p
+  ⟨X3, Y3, F * G % p⟩
+
+/-- [k](gx, gy) is the neutral element (0 : 1 : 1), by double-and-add from the top bit -/
+def eMulIsNeutral (p a d gx gy k : Nat) : Bool :=
+  let g : EPt := ⟨gx, gy, 1⟩
+  let bits := Nat.log2 k + 1
+  let r := (List.range bits).foldl (fun (acc : EPt) i =>
+    let dd := eAdd p a d acc acc
+    if (k >>> (bits - 1 - i)) % 2 = 1 then eAdd p a d dd g else dd) ⟨0, 1, 1⟩
+  r.x % p == 0 && r.y % p == r.z % p && r.z % p != 0
+
+/-- decidable consistency of a twisted Edwards parameter set over its field prime p: canonical constants, the addition law is complete
+    (a a non-zero square, d a non-square, Euler's criterion), the generator is on the curve and is not the neutral element, the stated order
+    annihilates it, h·r lies in the Hasse interval and is the only multiple of r there, the cofactor is a multiple of 4 (every twisted
+    Edwards curve with square a has a point of order 4) -/
+def edOk (p : Nat) (c : EdParam) : Bool :=
+  c.a < p && c.d < p && c.gx < p && c.gy < p && c.a != c.d && c.d != 0 &&
+  powMod c.a ((p - 1) / 2) p == 1 && powMod c.d ((p - 1) / 2) p == p - 1 &&
+  (c.a * (c.gx * c.gx % p) + c.gy * c.gy) % p == (1 + c.d * (c.gx * c.gx % p) % p * (c.gy * c.gy % p)) % p &&
+  !(c.gx == 0 && c.gy == 1) &&
+  eMulIsNeutral p c.a c.d c.gx c.gy c.r && c.r > 1 &&
+  (let hr := c.h * c.r; let t := if hr ≥ p + 1 then hr - (p + 1) else p + 1 - hr; t * t ≤ 4 * p) &&
+  (c.r * c.r > 16 * p) && c.h % 4 == 0
+
 end Relic.Model.Param
